@@ -5,29 +5,31 @@ demo fails with it, the listed checks are run against the patched /repo, the pat
 outcome in /verif/seeded/<name>/ (patch.diff, demo.py, meta.json with what was run and which checks caught it)."""
 import json, os, shutil, subprocess, sys, tempfile
 sd, name, checks = sys.argv[1], sys.argv[2], sys.argv[3:]
+REPO = os.environ.get("PV_REPO", "/repo")                                             # the tree to patch (a vp run passes its own snapshot of /repo)
+VERIF = os.path.dirname(os.path.dirname(os.path.abspath(__file__)))                    # the checks of THIS copy of /verif
 def sh(cmd, **kw): return subprocess.run(cmd, shell=True, capture_output=True, text=True, **kw)
-assert sh("git -C /repo status --porcelain").stdout.strip() == "", "/repo not clean"
+assert sh(f"git -C {REPO} status --porcelain").stdout.strip() == "", f"{REPO} not clean"
 ran = {}
-r = sh(f"/venv/bin/python {sd}/demo.py /repo", timeout=1800); ran["demo_on_repo"] = r.returncode
-assert r.returncode == 0, ("demo fails on unpatched /repo", r.stdout[-500:], r.stderr[-500:])
-r = sh(f"git -C /repo apply --check {sd}/patch.diff"); assert r.returncode == 0, ("patch does not apply", r.stderr)
-sh(f"git -C /repo apply {sd}/patch.diff")
+r = sh(f"/venv/bin/python {sd}/demo.py {REPO}", timeout=1800); ran["demo_on_repo"] = r.returncode
+assert r.returncode == 0, (f"demo fails on unpatched {REPO}", r.stdout[-500:], r.stderr[-500:])
+r = sh(f"git -C {REPO} apply --check {sd}/patch.diff"); assert r.returncode == 0, ("patch does not apply", r.stderr)
+sh(f"git -C {REPO} apply {sd}/patch.diff")
 evbak = tempfile.mkdtemp(prefix="pv-ev-", dir="/var/tmp")
-sh(f"cp -a /verif/evidence/. {evbak}/")
+sh(f"cp -a {VERIF}/evidence/. {evbak}/")
 try:
-    r = sh(f"/venv/bin/python {sd}/demo.py /repo", timeout=1800); ran["demo_on_patched"] = r.returncode
+    r = sh(f"/venv/bin/python {sd}/demo.py {REPO}", timeout=1800); ran["demo_on_patched"] = r.returncode
     demo_out = (r.stdout + r.stderr)[-600:]
     results = {}
     for c in checks:
-        q = sh(f"cd /verif && ./check {c} --tier quick", timeout=3000)
+        q = sh(f"cd {VERIF} && ./check {c} --tier quick", timeout=3000)
         lines = [l for l in q.stdout.splitlines() if l.startswith(("VIOLATION", "KNOWN-FINDING"))]
         lines.sort(key=lambda l: not l.startswith("VIOLATION")); results[c] = {"exit": q.returncode, "lines": lines[:6]}
         print(c, "exit", q.returncode, *lines[:3], sep="\n   ")
 finally:
-    sh("git -C /repo checkout -- . && git -C /repo clean -fdq pyvolutionary")
-    sh(f"rm -rf /verif/evidence && mkdir -p /verif/evidence && cp -a {evbak}/. /verif/evidence/ && rm -rf {evbak}")      # evidence must come from the unchanged tree
-assert sh("git -C /repo status --porcelain").stdout.strip() == ""
-out = f"/verif/seeded/{name}"; os.makedirs(out, exist_ok=True)
+    sh(f"git -C {REPO} checkout -- . && git -C {REPO} clean -fdq pyvolutionary")
+    sh(f"rm -rf {VERIF}/evidence && mkdir -p {VERIF}/evidence && cp -a {evbak}/. {VERIF}/evidence/ && rm -rf {evbak}")      # evidence must come from the unchanged tree
+assert sh(f"git -C {REPO} status --porcelain").stdout.strip() == ""
+out = f"{VERIF}/seeded/{name}"; os.makedirs(out, exist_ok=True)
 shutil.copy(f"{sd}/patch.diff", out); shutil.copy(f"{sd}/demo.py", out)
 meta = json.load(open(f"{sd}/meta.json")) if os.path.exists(f"{sd}/meta.json") else {}
 meta["confirmed"] = {"demo_on_repo_exit": ran["demo_on_repo"], "demo_on_patched_exit": ran["demo_on_patched"], "demo_output_tail": demo_out,
